@@ -491,8 +491,11 @@ class Run(RunBase):
         self.last = f"remove[{form}]"
         if any(self.assigned.get(i) for i in ids):
             self.probe("remove-after-assign")
+        args = [copy.deepcopy(o) for o in objs] if op.get("as_copy") else objs  # an equal object, not the same one
+        if op.get("as_copy"):
+            self.probe("removed-by-an-equal-copy")
         try:
-            self.sc.remove_obstacle(objs if form == "list" else objs[0])
+            self.sc.remove_obstacle(args if form == "list" else args[0])
         except Exception as e:  # noqa
             kinds = sorted({self.contained[i] for i in ids})
             raise Violation(f"C07/remove-raised[{','.join(kinds)}]/<-remove",
@@ -607,7 +610,7 @@ def _remover(rng, run, cfg):
             continue
         form = rng.choice(["single", "list"])
         n = 1 if form == "single" else rng.randint(1, min(3, len(c)))
-        yield {"op": "remove", "ids": rng.sample(c, n), "form": form}
+        yield {"op": "remove", "ids": rng.sample(c, n), "form": form, "as_copy": rng.chance(0.25)}
 
 
 def _readder(rng, run, cfg):
@@ -645,7 +648,8 @@ class C07(Property):
                        "second-scenario-with-other-lanelet-ids",
                        "pre-assigned-obstacle-added", "footprint-exactly-tangent-to-a-lanelet",
                        "network-grown:single", "network-grown:list", "network-grown:list+refused",
-                       "map-shrunk:list-removal-interrupted", "obstacle-removed-after-its-lanelet-left"]
+                       "map-shrunk:list-removal-interrupted", "obstacle-removed-after-its-lanelet-left",
+                       "removed-by-an-equal-copy"]
     assumptions = [
         "geometric truth comes from crkit.geom with its don't-care band; the footprint at a time step is read from the "
         "parameters of occupancy_at_time(t).shape (whether that occupancy is the right placement is C04)",
